@@ -41,6 +41,7 @@ func checkC18(c *Ctx) {
 	c.Rule("R4", "narrow rewrite: the conversion stores only into request argument 1 and reply element 0")
 	c.Rule("R5", "node list is the sorted usable-host snapshot")
 	c.Rule("R6", "reply hook indexes the reply array only with a length witness")
+	c.Rule("R7", "hook order: the cursor rewrite of the reply runs before the hook that completes the client-facing request")
 
 	gen := p.Func(redisPkg, "(*scanRequest).genCursor")
 	parse := p.Func(redisPkg, "(*scanRequest).parseCursor")
@@ -400,6 +401,9 @@ func checkC18(c *Ctx) {
 	c.Expect("R3", 6)
 	c.Expect("R4", 2)
 	c.Expect("R6", 2)
+	checkSnapshotImmutable(c, "R5")
+	checkHookOrder(c, "R7")
+	c.Expect("R7", 2)
 }
 
 // checkScanTermConst verifies respScanTerm = Array[ BulkString "0", Array[] ] from its initialiser.
@@ -472,4 +476,107 @@ func checkScanTermConst(c *Ctx, g *ssa.Global) {
 	}
 	c.Check(okc, "R2", "terminal reply cursor is \"0\"", st.Pos(), "element 0 is bulk string \"0\"", "terminal reply's cursor is not the bulk string \"0\": clients never see the end of the iteration")
 	c.Check(oka, "R2", "terminal reply key list is an empty array", st.Pos(), "element 1 is an empty, non-null array", "terminal reply's key list is not an empty non-null array")
+}
+
+// checkHookOrder (C18.R7, C13.R9): hooks of a request run in an order fixed by SetResponse (read from its loop). A hook
+// that completes the client-facing request hands the reply to the session writer at once; a hook that rewrites the
+// reply (SCAN cursor, decompression) must therefore run before it. Where one function registers both kinds on the same
+// request, the registration order must give that execution order.
+func checkHookOrder(c *Ctx, rule string) {
+	p := c.P
+	sr := p.Func(redisPkg, "(*simpleRequest).SetResponse")
+	reg := p.Func(redisPkg, "(*simpleRequest).RegisterHook")
+	if sr == nil || reg == nil {
+		c.Unresolved(rule, "simpleRequest.SetResponse / RegisterHook")
+		return
+	}
+	// execution order: the loop index of the hook loop starts at len-1 and decreases (LIFO) or at 0 and increases (FIFO)
+	lifo, known := false, false
+	eachInstr(sr, func(_ *ssa.BasicBlock, _ int, in ssa.Instruction) {
+		ph, ok := in.(*ssa.Phi)
+		if !ok {
+			return
+		}
+		for _, e := range ph.Edges {
+			bo, ok := e.(*ssa.BinOp)
+			if !ok || bo.X != ssa.Value(ph) {
+				continue
+			}
+			if k, isC := constInt(bo.Y); isC && k == 1 {
+				known = true
+				lifo = bo.Op == token.SUB
+			}
+		}
+	})
+	if !known {
+		c.Undecided(rule, "hook execution order", sr.Pos(), "the loop that runs the hooks is not a counted loop")
+		return
+	}
+	order := map[bool]string{true: "last registered runs first", false: "first registered runs first"}[lifo]
+	c.OK(rule, "hook execution order", sr.Pos(), order)
+	type hk struct {
+		call      *ssa.Call
+		req       ssa.Value
+		completes bool
+		mutates   bool
+	}
+	isRespVal := func(t types.Type) bool {
+		if pt, ok := t.Underlying().(*types.Pointer); ok {
+			t = pt.Elem()
+		}
+		return modType(t, redisPkg, "RespValue")
+	}
+	npairs := 0
+	for _, fn := range p.FuncsIn(redisPkg) {
+		if p.isTestFn(fn) {
+			continue
+		}
+		var hooks []hk
+		eachInstr(fn, func(_ *ssa.BasicBlock, _ int, in ssa.Instruction) {
+			call, ok := in.(*ssa.Call)
+			if !ok || !isCallToFn(call, reg) {
+				return
+			}
+			h := hk{call: call, req: call.Call.Args[0]}
+			g := funcValue(call.Call.Args[1])
+			if g == nil {
+				return
+			}
+			for _, f := range append([]*ssa.Function{g}, staticCalleesDeep(g, 2)...) {
+				eachInstr(f, func(_ *ssa.BasicBlock, _ int, x ssa.Instruction) {
+					if cc := callOf(x); cc != nil {
+						if t := calleeFn(cc); t != nil && t.Name() == "SetResponse" && len(cc.Args) > 0 && cc.Args[0] != ssa.Value(g.Params[0]) {
+							h.completes = true
+						}
+					}
+					if st, ok := x.(*ssa.Store); ok && f == g {
+						if fld, base := fieldAddr(st.Addr); fld != nil && isRespVal(base.Type()) {
+							h.mutates = true
+						}
+					}
+				})
+			}
+			hooks = append(hooks, h)
+		})
+		for _, a := range hooks {
+			for _, b := range hooks {
+				if !a.completes || !b.mutates || a.call == b.call || a.req != b.req {
+					continue
+				}
+				npairs++
+				site := fmt.Sprintf("%s: reply rewritten before the client-facing request is completed", fnKey(fn))
+				// the mutator must run first
+				good := false
+				if lifo {
+					good = instrDominates(a.call, b.call) // completer registered first, runs last
+				} else {
+					good = instrDominates(b.call, a.call)
+				}
+				c.Check(good, rule, site, b.call.Pos(), "registration order makes the rewriting hook run before the completing hook ("+order+")", "with hooks executed as "+order+", the hook that completes the client-facing request runs before the hook that rewrites the reply: the session writer can encode the reply before (or while) it is patched - a SCAN client receives the bare node cursor (iteration ends early or jumps to another node)")
+			}
+		}
+	}
+	if npairs == 0 {
+		c.Note("no function registers both a completing and a rewriting hook on one request")
+	}
 }
